@@ -220,6 +220,7 @@ Ev(prog, e, st) ==
                    [] e.f = "in"   -> V(Log(as.st, <<"in", e.tag>>), as.st.ins[e.tag + 1])
                    [] e.f = "mk"   -> V(Log(as.st, <<"mk", e.tag>>), [tr |-> e.tag])
                    [] e.f = "use"  -> V(Log(as.st, <<"use", as.v[1].tr>>), Unit)
+                   [] e.f = "optif" -> V(Log(as.st, <<"optif", e.tag>>), IF as.v[1] THEN Some(as.v[2]) ELSE None)
                    [] e.f = "tick" -> V(Log(as.st, <<"tick", e.tag>>), Unit))
       [] e.k = "ret" ->
             IF e.e = <<>> THEN R(st, Unit)
